@@ -189,7 +189,7 @@ def gen_case(rnd):
 
 def case_line(i, case):
     text, qt, probes = case
-    return "C %d %s %d %d %s" % (i, hexs(text), 1 if qt else 0, len(probes),
+    return "C %s %s %d %d %s" % (i, hexs(text), 1 if qt else 0, len(probes),
                                  " ".join("%s %d" % (hexb(c.encode("ascii")), t) for c, t in probes))
 
 
